@@ -4,7 +4,8 @@ CleanShutdownQueue and a wrapper around BaseEvent.event_result_update; no bubus 
 """
 import asyncio
 import datetime as dt
-import faulthandler
+import signal
+import traceback
 import gc
 import logging
 import os
@@ -481,17 +482,29 @@ def reset_globals():
     gc.collect()
 
 
+class Watchdog(BaseException):
+    """wall-clock limit of one scenario exceeded (a synchronous spin is invisible to virtual time)"""
+
+
+def _on_alarm(signum, frame):
+    raise Watchdog(''.join(traceback.format_stack(frame)[-8:]))
+
+
 def run_scenario(sc, budget=300_000, watchdog=20):
-    """returns {'sc', 'log', 'err'}; err is None, 'budget', 'deadlock' or an exception description"""
+    """returns {'sc', 'log', 'err'}; err is None, 'budget', 'deadlock', 'watchdog…' or an exception description"""
     global RT
     reset_globals()
     RT = Rt(sc)
     loop = VLoop(budget)
     asyncio.set_event_loop(loop)
     err = None
-    faulthandler.dump_traceback_later(watchdog, exit=True)
+    signal.signal(signal.SIGALRM, _on_alarm)
+    signal.setitimer(signal.ITIMER_REAL, watchdog)
     try:
         loop.run_until_complete(run_sc(sc))
+    except Watchdog as e:
+        st = str(e)
+        err = ('watchdog-in-bubus: ' if '/bubus/' in st else 'watchdog: ') + st
     except Budget:
         err = 'budget'
     except Deadlock:
@@ -499,7 +512,7 @@ def run_scenario(sc, budget=300_000, watchdog=20):
     except BaseException as e:  # noqa: BLE001
         err = f'{type(e).__name__}: {e}'
     finally:
-        faulthandler.cancel_dump_traceback_later()
+        signal.setitimer(signal.ITIMER_REAL, 0)
         try:
             for t in asyncio.all_tasks(loop):
                 t.cancel()
